@@ -66,3 +66,12 @@ def mc_or_die(module, cfg, workers=8):
     if not mc["ok"]:
         raise tlc.MachineryError(f"{module} ({cfg}) failed: the layers of the specification disagree\n" + mc["out"][-2500:])
     return mc
+
+
+def mc_must_fail(module, cfg, invariant, workers=8):
+    """Negative control of the model checker: a configuration that re-introduces a repaired defect / a wrong design into the
+    specification must be refuted by TLC with the named invariant (otherwise the invariant is vacuous)."""
+    mc = tlc.model_check(module, cfg=cfg, workers=workers)
+    if mc["ok"] or f"Invariant {invariant} is violated" not in mc["out"]:
+        raise tlc.MachineryError(f"{module} ({cfg}): expected TLC to refute {invariant}; it did not\n" + mc["out"][-1500:])
+    return mc
